@@ -1,8 +1,1103 @@
+//! C16 — the single-threaded mpsc channel (`dfir_rs::util::unsync::mpsc`) under a hand-written
+//! deterministic executor.
+//!
+//! The harness owns k sender tasks, one receiver task and one counting waker per task. A *schedule*
+//! is a sequence of actions
+//!   `S<i>`  poll sender task i        (spurious if the task has no un-consumed wake)
+//!   `R`     poll the receiver task    (ditto)
+//!   `xS<i>` cancel: drop task i's pending send future, the task moves on to its next item
+//!   `dS<i>` drop sender task i (with whatever it has in flight)
+//!   `cR`    `Receiver::close()`       `dR` drop the receiver
+//! After the schedule the executor *drains*: it polls woken tasks only, in wake order, until no task
+//! is woken (quiescence), like an ordinary single-threaded executor would.
+//!
+//! Task kinds: `send` (one `Sender::send` future at a time), `sink` (`Sink::poll_ready` +
+//! `start_send`, `poll_close` at the end), `try` (`try_send`, gives up on `Full`), `join` (all items
+//! as concurrent `send` futures inside one task, every unfinished one polled on each task poll, like
+//! `futures::join!`). A task performs one channel operation per poll and wakes itself if it can go
+//! on; when it is out of items it drops its sender.
+//!
+//! Oracle: a FIFO queue model (safety: what may be answered) and, at every quiescent point, the
+//! lost-wake-up rule: no live task is parked without an un-consumed wake while the model says its
+//! next poll would make progress.
+
+use std::collections::{BTreeMap, VecDeque};
+use std::future::Future;
+use std::num::NonZeroUsize;
+use std::pin::Pin;
+use std::rc::Rc;
+use std::sync::atomic::{AtomicBool, AtomicU32, Ordering};
+use std::sync::{Arc, Mutex};
+use std::task::{Context, Poll, Wake, Waker};
+
+use dfir_rs::util::unsync::mpsc::{self, Receiver, SendError, Sender, TrySendError};
+use futures::{Sink, Stream};
+use vcommon::{Args, Reporter, Rng, Tier, Value, catch, hash_of, json};
+
+// ---------------------------------------------------------------------------------------------
+// configuration and schedules
+
+#[derive(Clone, Copy, Debug, PartialEq, Eq, Hash)]
+enum Mode {
+    Fut,
+    Sink,
+    Try,
+    Join,
+}
+
+impl Mode {
+    fn name(self) -> &'static str {
+        match self {
+            Mode::Fut => "send",
+            Mode::Sink => "sink",
+            Mode::Try => "try",
+            Mode::Join => "join",
+        }
+    }
+    fn parse(s: &str) -> Mode {
+        match s {
+            "send" => Mode::Fut,
+            "sink" => Mode::Sink,
+            "try" => Mode::Try,
+            "join" => Mode::Join,
+            _ => panic!("bad mode {s}"),
+        }
+    }
+}
+
+#[derive(Clone, Debug, PartialEq, Eq, Hash)]
+struct Cfg {
+    cap: Option<usize>,
+    /// (mode, number of items); item ids are 10*(task+1)+j
+    senders: Vec<(Mode, usize)>,
+    /// receiver task polls through `Stream::poll_next` instead of `poll_recv`
+    rx_stream: bool,
+}
+
+#[derive(Clone, Copy, Debug, PartialEq, Eq, Hash)]
+enum Act {
+    PollS(usize),
+    PollR,
+    Cancel(usize),
+    DropS(usize),
+    CloseR,
+    DropR,
+}
+
+impl Act {
+    fn show(self) -> String {
+        match self {
+            Act::PollS(i) => format!("S{i}"),
+            Act::PollR => "R".into(),
+            Act::Cancel(i) => format!("xS{i}"),
+            Act::DropS(i) => format!("dS{i}"),
+            Act::CloseR => "cR".into(),
+            Act::DropR => "dR".into(),
+        }
+    }
+    fn parse(s: &str) -> Act {
+        let num = |t: &str| t.parse::<usize>().expect("task index");
+        if s == "R" {
+            Act::PollR
+        } else if s == "cR" {
+            Act::CloseR
+        } else if s == "dR" {
+            Act::DropR
+        } else if let Some(t) = s.strip_prefix("xS") {
+            Act::Cancel(num(t))
+        } else if let Some(t) = s.strip_prefix("dS") {
+            Act::DropS(num(t))
+        } else if let Some(t) = s.strip_prefix('S') {
+            Act::PollS(num(t))
+        } else {
+            panic!("bad action {s}")
+        }
+    }
+    fn sender(self) -> Option<usize> {
+        match self {
+            Act::PollS(i) | Act::Cancel(i) | Act::DropS(i) => Some(i),
+            _ => None,
+        }
+    }
+}
+
+fn sched_str(s: &[Act]) -> Vec<String> {
+    s.iter().map(|a| a.show()).collect()
+}
+
+fn case_json(cfg: &Cfg, sched: &[Act], fam: &str) -> Value {
+    json!({"engine":"mon_mpsc","family":fam,"cap":cfg.cap,"rx_stream":cfg.rx_stream,
+           "senders": cfg.senders.iter().map(|(m,n)| json!({"mode":m.name(),"items":n})).collect::<Vec<_>>(),
+           "schedule": sched_str(sched)})
+}
+
+// ---------------------------------------------------------------------------------------------
+// counting wakers + run queue
+
+struct TW {
+    id: usize,
+    woken: AtomicBool,
+    /// set by the harness while the task is parked on the channel; a wake that finds it set is a
+    /// wake-up delivered by the channel to a waiting task
+    parked: AtomicBool,
+    count: AtomicU32,
+    parked_wakes: AtomicU32,
+    q: Arc<Mutex<VecDeque<usize>>>,
+}
+
+impl Wake for TW {
+    fn wake(self: Arc<Self>) {
+        self.wake_by_ref()
+    }
+    fn wake_by_ref(self: &Arc<Self>) {
+        self.count.fetch_add(1, Ordering::Relaxed);
+        if self.parked.swap(false, Ordering::Relaxed) {
+            self.parked_wakes.fetch_add(1, Ordering::Relaxed);
+        }
+        if !self.woken.swap(true, Ordering::Relaxed) {
+            self.q.lock().unwrap().push_back(self.id);
+        }
+    }
+}
+
+// ---------------------------------------------------------------------------------------------
+// harness
+
+type SendFut = Pin<Box<dyn Future<Output = Result<(), SendError<u32>>>>>;
+
+struct STask {
+    mode: Mode,
+    items: Vec<u32>,
+    next: usize,
+    tx_rc: Option<Rc<Sender<u32>>>,
+    tx_own: Option<Sender<u32>>,
+    inflight: Vec<(u32, SendFut)>,
+    sink_waiting: bool,
+    alive: bool,
+}
+
+#[derive(Clone, Copy, PartialEq, Eq, Debug)]
+enum RxState {
+    Alive,
+    Closed,
+    Dropped,
+}
+
+struct Model {
+    queue: VecDeque<u32>,
+    cap: Option<usize>,
+    rx: RxState,
+    live_senders: usize,
+    last_exit: &'static str,
+    ok_sent: Vec<u32>,
+    received: Vec<u32>,
+}
+
+impl Model {
+    fn has_room(&self) -> bool {
+        self.cap.is_none_or(|c| self.queue.len() < c)
+    }
+}
+
+struct Harness {
+    cfg: Cfg,
+    k: usize,
+    tasks: Vec<STask>,
+    rx: Option<Receiver<u32>>,
+    rx_done: bool,
+    wakers: Vec<Arc<TW>>,
+    q: Arc<Mutex<VecDeque<usize>>>,
+    model: Model,
+    trace: Vec<String>,
+    viol: Vec<(String, String)>,
+    spurious: bool,
+    cancel: bool,
+    join2: bool,
+    evals: u64,
+    send_pending_seen: bool,
+    full_with_room: u64,
+}
+
+fn owner_of(item: u32) -> usize {
+    (item / 10) as usize - 1
+}
+
+impl Harness {
+    fn new(cfg: &Cfg) -> Harness {
+        let k = cfg.senders.len();
+        let (tx0, rx) = mpsc::channel::<u32>(cfg.cap.map(|c| NonZeroUsize::new(c).expect("cap > 0")));
+        let q = Arc::new(Mutex::new(VecDeque::new()));
+        let wakers: Vec<Arc<TW>> = (0..=k)
+            .map(|id| {
+                Arc::new(TW {
+                    id,
+                    woken: AtomicBool::new(false),
+                    parked: AtomicBool::new(false),
+                    count: AtomicU32::new(0),
+                    parked_wakes: AtomicU32::new(0),
+                    q: q.clone(),
+                })
+            })
+            .collect();
+        let mut txs: Vec<Sender<u32>> = (1..k).map(|_| tx0.clone()).collect();
+        txs.insert(0, tx0);
+        let tasks = cfg
+            .senders
+            .iter()
+            .zip(txs)
+            .enumerate()
+            .map(|(i, (&(mode, n), tx))| {
+                let (tx_rc, tx_own) = match mode {
+                    Mode::Fut | Mode::Join => (Some(Rc::new(tx)), None),
+                    Mode::Sink | Mode::Try => (None, Some(tx)),
+                };
+                STask {
+                    mode,
+                    items: (0..n).map(|j| 10 * (i as u32 + 1) + j as u32).collect(),
+                    next: 0,
+                    tx_rc,
+                    tx_own,
+                    inflight: vec![],
+                    sink_waiting: false,
+                    alive: true,
+                }
+            })
+            .collect();
+        let h = Harness {
+            cfg: cfg.clone(),
+            k,
+            tasks,
+            rx: Some(rx),
+            rx_done: false,
+            wakers,
+            q,
+            model: Model { queue: VecDeque::new(), cap: cfg.cap, rx: RxState::Alive, live_senders: k, last_exit: "none", ok_sent: vec![], received: vec![] },
+            trace: vec![],
+            viol: vec![],
+            spurious: false,
+            cancel: false,
+            join2: false,
+            evals: 0,
+            send_pending_seen: false,
+            full_with_room: 0,
+        };
+        // freshly spawned tasks are runnable
+        for w in &h.wakers {
+            w.wake_by_ref();
+        }
+        h
+    }
+
+    fn woken(&self, id: usize) -> bool {
+        self.wakers[id].woken.load(Ordering::Relaxed)
+    }
+    fn rx_task_live(&self) -> bool {
+        self.rx.is_some() && !self.rx_done
+    }
+    fn task_live(&self, id: usize) -> bool {
+        if id == self.k { self.rx_task_live() } else { self.tasks[id].alive }
+    }
+    fn runnable(&self) -> bool {
+        (0..=self.k).any(|id| self.task_live(id) && self.woken(id))
+    }
+    fn class(&self) -> &'static str {
+        if self.spurious {
+            "spurious-poll"
+        } else if self.cancel {
+            "woken-only+cancelled-send"
+        } else if self.join2 {
+            "woken-only+join-task"
+        } else {
+            "woken-only"
+        }
+    }
+    fn flag(&mut self, sig: &str, what: String) {
+        self.viol.push((sig.to_string(), what));
+    }
+
+    // ---- model judgements of single answers (safety) ----
+
+    fn judge_send_ok(&mut self, site: &str, item: u32) {
+        self.evals += 1;
+        match self.model.rx {
+            RxState::Alive => {
+                if !self.model.has_room() {
+                    self.flag(&format!("C16|{site}|ok-over-capacity"), format!("{site}({item}) succeeded with {} items buffered, capacity {:?}", self.model.queue.len(), self.model.cap));
+                }
+                self.model.queue.push_back(item);
+                self.model.ok_sent.push(item);
+            }
+            st => {
+                self.flag(&format!("C16|{site}|ok-after-receiver-closed"), format!("{site}({item}) returned Ok although the receiver is {st:?}"));
+            }
+        }
+    }
+    fn judge_send_closed(&mut self, site: &str, item: u32, returned: Option<u32>, must_return: bool) {
+        self.evals += 1;
+        if self.model.rx == RxState::Alive {
+            self.flag(&format!("C16|{site}|closed-error-while-receiver-alive"), format!("{site}({item}) reported the channel closed although the receiver is alive and open"));
+        }
+        match returned {
+            Some(v) if v != item => self.flag(&format!("C16|{site}|error-returns-wrong-item"), format!("{site}({item}) failed and handed back {v}")),
+            None if must_return => self.flag(&format!("C16|{site}|error-does-not-return-item"), format!("{site}({item}) failed without handing the item back")),
+            _ => {}
+        }
+    }
+    fn judge_full(&mut self, site: &str, item: u32, returned: Option<u32>) {
+        self.evals += 1;
+        if returned != Some(item) {
+            self.flag(&format!("C16|{site}|error-returns-wrong-item"), format!("{site}({item}) answered Full and handed back {returned:?}"));
+        }
+        if self.model.rx == RxState::Alive && self.model.has_room() {
+            self.full_with_room += 1; // not promised either way by C16; counted only
+        }
+    }
+
+    // ---- task polls ----
+
+    fn finish_sender(&mut self, i: usize, how: &'static str) {
+        let t = &mut self.tasks[i];
+        t.inflight.clear();
+        t.sink_waiting = false;
+        let had = t.tx_rc.is_some() || t.tx_own.is_some();
+        t.tx_rc = None;
+        t.tx_own = None;
+        t.alive = false;
+        self.wakers[i].parked.store(false, Ordering::Relaxed);
+        if had && how != "already-closed" {
+            self.model.live_senders -= 1;
+            self.model.last_exit = how;
+        }
+    }
+
+    fn poll_sender(&mut self, i: usize) {
+        let w = self.wakers[i].clone();
+        w.woken.store(false, Ordering::Relaxed);
+        w.parked.store(false, Ordering::Relaxed);
+        let waker = Waker::from(w.clone());
+        let mut cx = Context::from_waker(&waker);
+        let mode = self.tasks[i].mode;
+        match mode {
+            Mode::Fut | Mode::Join => {
+                if self.tasks[i].inflight.is_empty() {
+                    let n = if mode == Mode::Join { self.tasks[i].items.len() - self.tasks[i].next } else { 1 };
+                    for _ in 0..n {
+                        let t = &mut self.tasks[i];
+                        let item = t.items[t.next];
+                        t.next += 1;
+                        let s = t.tx_rc.clone().expect("sender");
+                        t.inflight.push((item, Box::pin(async move { s.send(item).await })));
+                    }
+                    if n >= 2 {
+                        self.join2 = true;
+                    }
+                }
+                let mut inflight = std::mem::take(&mut self.tasks[i].inflight);
+                let mut keep = vec![];
+                let mut res = vec![];
+                for (item, mut f) in inflight.drain(..) {
+                    match f.as_mut().poll(&mut cx) {
+                        Poll::Pending => {
+                            res.push(format!("send({item})=Pending"));
+                            self.send_pending_seen = true;
+                            keep.push((item, f));
+                        }
+                        Poll::Ready(Ok(())) => {
+                            res.push(format!("send({item})=Ok"));
+                            self.judge_send_ok("send", item);
+                        }
+                        Poll::Ready(Err(SendError(v))) => {
+                            res.push(format!("send({item})=Err({v})"));
+                            self.judge_send_closed("send", item, Some(v), true);
+                        }
+                    }
+                }
+                self.trace.push(format!("S{i}:{}", res.join(",")));
+                let parked = !keep.is_empty();
+                self.tasks[i].inflight = keep;
+                if parked {
+                    w.parked.store(true, Ordering::Relaxed);
+                } else if self.tasks[i].next == self.tasks[i].items.len() {
+                    self.finish_sender(i, "drop");
+                } else {
+                    w.wake_by_ref();
+                }
+            }
+            Mode::Sink => {
+                let t = &mut self.tasks[i];
+                if t.next == t.items.len() {
+                    let r = Pin::new(t.tx_own.as_mut().expect("sender")).poll_close(&mut cx);
+                    self.trace.push(format!("S{i}:poll_close={}", match &r { Poll::Ready(Ok(())) => "Ok", Poll::Ready(Err(_)) => "Err", Poll::Pending => "Pending" }));
+                    self.evals += 1;
+                    if !matches!(r, Poll::Ready(Ok(()))) {
+                        self.flag("C16|Sink::poll_close|not-ok", "poll_close did not complete with Ok".into());
+                    }
+                    // the sender handle is closed now; dropping it afterwards changes nothing for the model
+                    self.model.live_senders -= 1;
+                    self.model.last_exit = "close_this_sender";
+                    self.finish_sender(i, "already-closed");
+                    return;
+                }
+                let item = t.items[t.next];
+                let tx = t.tx_own.as_mut().expect("sender");
+                match Pin::new(&mut *tx).poll_ready(&mut cx) {
+                    Poll::Pending => {
+                        t.sink_waiting = true;
+                        self.send_pending_seen = true;
+                        self.trace.push(format!("S{i}:poll_ready({item})=Pending"));
+                        w.parked.store(true, Ordering::Relaxed);
+                    }
+                    Poll::Ready(Ok(())) => {
+                        t.sink_waiting = false;
+                        t.next += 1;
+                        let r = Pin::new(&mut *tx).start_send(item);
+                        match r {
+                            Ok(()) => {
+                                self.trace.push(format!("S{i}:poll_ready+start_send({item})=Ok"));
+                                self.judge_send_ok("Sink::start_send", item);
+                            }
+                            Err(TrySendError::Full(v)) => {
+                                self.trace.push(format!("S{i}:poll_ready=Ok,start_send({item})=Full"));
+                                self.judge_full("Sink::start_send", item, v);
+                            }
+                            Err(TrySendError::Closed(v)) => {
+                                self.trace.push(format!("S{i}:poll_ready=Ok,start_send({item})=Closed"));
+                                self.judge_send_closed("Sink::start_send", item, v, true);
+                            }
+                        }
+                        w.wake_by_ref();
+                    }
+                    Poll::Ready(Err(e)) => {
+                        t.sink_waiting = false;
+                        t.next += 1;
+                        self.trace.push(format!("S{i}:poll_ready({item})=Err"));
+                        match e {
+                            TrySendError::Closed(v) => self.judge_send_closed("Sink::poll_ready", item, v, false),
+                            TrySendError::Full(_) => {
+                                self.evals += 1;
+                                self.flag("C16|Sink::poll_ready|full-error", "poll_ready answered Err(Full) instead of Pending".into())
+                            }
+                        }
+                        w.wake_by_ref();
+                    }
+                }
+            }
+            Mode::Try => {
+                let t = &mut self.tasks[i];
+                let item = t.items[t.next];
+                t.next += 1;
+                let r = t.tx_own.as_ref().expect("sender").try_send(item);
+                match r {
+                    Ok(()) => {
+                        self.trace.push(format!("S{i}:try_send({item})=Ok"));
+                        self.judge_send_ok("try_send", item);
+                    }
+                    Err(TrySendError::Full(v)) => {
+                        self.trace.push(format!("S{i}:try_send({item})=Full"));
+                        self.judge_full("try_send", item, Some(v));
+                    }
+                    Err(TrySendError::Closed(v)) => {
+                        self.trace.push(format!("S{i}:try_send({item})=Closed"));
+                        self.judge_send_closed("try_send", item, Some(v), true);
+                    }
+                }
+                if self.tasks[i].next == self.tasks[i].items.len() {
+                    self.finish_sender(i, "drop");
+                } else {
+                    w.wake_by_ref();
+                }
+            }
+        }
+    }
+
+    fn poll_receiver(&mut self) {
+        let w = self.wakers[self.k].clone();
+        w.woken.store(false, Ordering::Relaxed);
+        w.parked.store(false, Ordering::Relaxed);
+        let waker = Waker::from(w.clone());
+        let mut cx = Context::from_waker(&waker);
+        let rx = self.rx.as_mut().expect("receiver");
+        let r = if self.cfg.rx_stream { Pin::new(rx).poll_next(&mut cx) } else { rx.poll_recv(&cx) };
+        self.evals += 1;
+        match r {
+            Poll::Pending => {
+                self.trace.push("R:Pending".into());
+                w.parked.store(true, Ordering::Relaxed);
+            }
+            Poll::Ready(Some(y)) => {
+                self.trace.push(format!("R:Some({y})"));
+                if self.model.queue.front() == Some(&y) {
+                    self.model.queue.pop_front();
+                } else {
+                    let m = &self.model;
+                    let (kind, why) = if m.received.contains(&y) {
+                        ("duplicate-item", "it was already received")
+                    } else if !m.ok_sent.contains(&y) {
+                        ("item-never-sent", "no successful send handed it in")
+                    } else if m.queue.iter().take_while(|&&z| z != y).any(|&z| owner_of(z) == owner_of(y)) {
+                        ("per-sender-order", "an earlier item of the same sender is still undelivered")
+                    } else {
+                        ("send-order", "earlier successful sends of other senders are still undelivered")
+                    };
+                    let what = format!("recv returned {y} but {why}; queue by send order is {:?}", m.queue);
+                    self.flag(&format!("C16|recv|{kind}"), what);
+                    if let Some(p) = self.model.queue.iter().position(|&z| z == y) {
+                        self.model.queue.remove(p);
+                    }
+                }
+                self.model.received.push(y);
+                w.wake_by_ref();
+            }
+            Poll::Ready(None) => {
+                self.trace.push("R:None".into());
+                if !self.model.queue.is_empty() {
+                    let what = format!("recv returned None while {:?} were sent successfully and not yet received", self.model.queue);
+                    self.flag("C16|recv|none-with-items-undelivered", what);
+                } else if self.model.live_senders > 0 && self.model.rx == RxState::Alive {
+                    let what = format!("recv returned None while {} sender(s) are alive and the receiver was not closed", self.model.live_senders);
+                    self.flag("C16|recv|none-while-senders-alive", what);
+                }
+                // the receiver task returns, which drops the receiver
+                self.rx_done = true;
+                self.rx = None;
+                self.model.rx = RxState::Dropped;
+                self.model.queue.clear();
+            }
+        }
+    }
+
+    // ---- schedule actions ----
+
+    fn act(&mut self, a: Act) {
+        match a {
+            Act::PollS(i) => {
+                if !self.woken(i) {
+                    self.spurious = true;
+                }
+                self.poll_sender(i);
+            }
+            Act::PollR => {
+                if !self.woken(self.k) {
+                    self.spurious = true;
+                }
+                self.poll_receiver();
+            }
+            Act::Cancel(i) => {
+                self.cancel = true;
+                let t = &mut self.tasks[i];
+                let dropped: Vec<u32> = t.inflight.iter().map(|x| x.0).collect();
+                t.inflight.clear();
+                if t.sink_waiting {
+                    t.sink_waiting = false;
+                    t.next += 1;
+                }
+                self.trace.push(format!("xS{i}:cancelled{dropped:?}"));
+                self.wakers[i].parked.store(false, Ordering::Relaxed);
+                let t = &self.tasks[i];
+                if t.next == t.items.len() && t.mode != Mode::Sink {
+                    self.finish_sender(i, "drop");
+                } else {
+                    self.wakers[i].wake_by_ref();
+                }
+            }
+            Act::DropS(i) => {
+                if !self.tasks[i].inflight.is_empty() || self.tasks[i].sink_waiting {
+                    self.cancel = true;
+                }
+                self.trace.push(format!("dS{i}"));
+                self.finish_sender(i, "drop");
+            }
+            Act::CloseR => {
+                self.trace.push("cR".into());
+                self.rx.as_mut().expect("receiver").close();
+                self.model.rx = RxState::Closed;
+            }
+            Act::DropR => {
+                self.trace.push("dR".into());
+                self.rx = None;
+                self.model.rx = RxState::Dropped;
+                self.model.queue.clear();
+                self.wakers[self.k].parked.store(false, Ordering::Relaxed);
+            }
+        }
+    }
+
+    fn enabled(&self, allow_spurious: bool, allow_cancel: bool) -> Vec<Act> {
+        let mut v = vec![];
+        for i in 0..self.k {
+            let t = &self.tasks[i];
+            if !t.alive {
+                continue;
+            }
+            if self.woken(i) || allow_spurious {
+                v.push(Act::PollS(i));
+            }
+            let in_flight = !t.inflight.is_empty() || t.sink_waiting;
+            if allow_cancel && in_flight {
+                v.push(Act::Cancel(i));
+            }
+            if allow_cancel || !in_flight {
+                v.push(Act::DropS(i));
+            }
+        }
+        if self.rx_task_live() {
+            if self.woken(self.k) || allow_spurious {
+                v.push(Act::PollR);
+            }
+            if self.model.rx == RxState::Alive {
+                v.push(Act::CloseR);
+            }
+            v.push(Act::DropR);
+        }
+        v
+    }
+
+    /// Poll woken tasks only, in wake order, until none is woken. Returns the drained polls.
+    fn drain(&mut self) -> Vec<String> {
+        let total_items: usize = self.cfg.senders.iter().map(|s| s.1).sum();
+        // every poll either completes a channel operation (<= 2*items + k + 2 of them) or parks a
+        // task until the next wake; each operation wakes at most two tasks
+        let cap = 20 * (total_items + self.k + 3);
+        let mut done = vec![];
+        let mut steps = 0;
+        loop {
+            let id = self.q.lock().unwrap().pop_front();
+            let Some(id) = id else { break };
+            if !self.woken(id) || !self.task_live(id) {
+                continue;
+            }
+            steps += 1;
+            if steps > cap {
+                self.flag("C16|executor|no-quiescence-within-step-cap", format!("woken-only execution did not settle within {cap} polls"));
+                break;
+            }
+            if id == self.k {
+                done.push("R".to_string());
+                self.poll_receiver();
+            } else {
+                done.push(format!("S{id}"));
+                self.poll_sender(id);
+            }
+            if !self.viol.is_empty() {
+                break;
+            }
+        }
+        done
+    }
+
+    /// The lost-wake-up rule at a quiescent point.
+    fn judge_quiescence(&mut self) {
+        debug_assert!(!self.runnable());
+        let class = self.class();
+        for i in 0..self.k {
+            let t = &self.tasks[i];
+            if !t.alive || !(self.wakers[i].parked.load(Ordering::Relaxed)) {
+                continue;
+            }
+            self.evals += 1;
+            let waiting: Vec<u32> = if t.mode == Mode::Sink { vec![t.items[t.next]] } else { t.inflight.iter().map(|x| x.0).collect() };
+            match self.model.rx {
+                RxState::Alive => {
+                    if self.model.has_room() {
+                        let what = format!(
+                            "sender task {i} ({}) is parked in send of {waiting:?} with no wake-up outstanding although {} of {:?} slots are used and the receiver is parked; nothing will ever poll it again",
+                            t.mode.name(), self.model.queue.len(), self.model.cap
+                        );
+                        self.flag(&format!("C16|quiescence|sender-stranded-with-free-capacity|{class}"), what);
+                    }
+                }
+                st => {
+                    let what = format!("sender task {i} ({}) is parked in send of {waiting:?} with no wake-up outstanding although the receiver is {st:?}", t.mode.name());
+                    self.flag(&format!("C16|quiescence|sender-not-woken-by-receiver-close|{class}"), what);
+                }
+            }
+        }
+        if self.rx_task_live() && self.wakers[self.k].parked.load(Ordering::Relaxed) {
+            self.evals += 1;
+            let m = &self.model;
+            if !m.queue.is_empty() {
+                let what = format!("the receiver is parked with no wake-up outstanding although {:?} are buffered", m.queue);
+                self.flag(&format!("C16|quiescence|receiver-stranded-with-items-buffered|{class}"), what);
+            } else if m.rx == RxState::Closed {
+                self.flag(&format!("C16|quiescence|receiver-stranded-after-own-close|{class}"), "the receiver called close(), the buffer is empty, yet its task is parked with no wake-up outstanding".into());
+            } else if m.live_senders == 0 {
+                let what = format!("every sender is gone (the last one by {}), the buffer is empty, yet the receiver is parked with no wake-up outstanding and will never see None", m.last_exit);
+                self.flag(&format!("C16|quiescence|receiver-not-woken-when-last-sender-gone-by-{}|{class}", m.last_exit), what);
+            }
+        }
+    }
+}
+
+// ---------------------------------------------------------------------------------------------
+// one execution = schedule, then drain, then judgement
+
+struct Outcome {
+    enabled: Vec<Act>,
+    viol: Vec<(String, String)>,
+    /// a per-answer (safety) violation or panic: the state no longer follows the model, do not extend
+    stop: bool,
+    class: &'static str,
+    evals: u64,
+    nontrivial: bool,
+    send_pending: bool,
+    full_with_room: u64,
+    trace: Vec<String>,
+    drained: Vec<String>,
+    /// how many schedule actions were executed (a run stops at the first violation)
+    executed: usize,
+}
+
+fn execute(cfg: &Cfg, sched: &[Act], allow_spurious: bool, allow_cancel: bool, judge_mid: bool) -> Outcome {
+    let r = catch(|| {
+        let mut h = Harness::new(cfg);
+        let mut executed = 0;
+        for &a in sched {
+            // tolerate replay descriptors that name a disabled action
+            if !h.enabled(true, true).contains(&a) {
+                h.trace.push(format!("{}:not-enabled", a.show()));
+                executed += 1;
+                continue;
+            }
+            h.act(a);
+            executed += 1;
+            if !h.viol.is_empty() {
+                break;
+            }
+            if judge_mid && !h.runnable() {
+                h.judge_quiescence();
+                if !h.viol.is_empty() {
+                    break;
+                }
+            }
+        }
+        let stop = !h.viol.is_empty();
+        let enabled = if stop { vec![] } else { h.enabled(allow_spurious, allow_cancel) };
+        let mut drained = vec![];
+        if !stop {
+            drained = h.drain();
+            if h.viol.is_empty() {
+                h.judge_quiescence();
+            }
+        }
+        let chan_wakes: u32 = h.wakers.iter().map(|w| w.parked_wakes.load(Ordering::Relaxed)).sum();
+        Outcome {
+            enabled,
+            class: h.class(),
+            evals: h.evals,
+            nontrivial: chan_wakes > 0,
+            send_pending: h.send_pending_seen,
+            full_with_room: h.full_with_room,
+            trace: std::mem::take(&mut h.trace),
+            drained,
+            executed,
+            // safety violations stop extension; stranding alone does not
+            stop: stop || h.viol.iter().any(|(s, _)| !s.contains("|quiescence|")),
+            viol: std::mem::take(&mut h.viol),
+        }
+    });
+    match r {
+        Ok(o) => o,
+        Err(p) => Outcome {
+            enabled: vec![],
+            viol: vec![("C16|channel|panic".into(), format!("panic while executing the schedule: {p}"))],
+            stop: true,
+            class: "?",
+            evals: 1,
+            nontrivial: false,
+            send_pending: false,
+            full_with_room: 0,
+            trace: vec![],
+            drained: vec![],
+            executed: sched.len(),
+        },
+    }
+}
+
+/// Violations are collected first and reported shortest-schedule-first, so that the replay file of a
+/// signature is a minimal schedule found.
+#[derive(Default)]
+struct Findings {
+    by_sig: BTreeMap<String, (u64, Vec<(usize, String, Value)>)>,
+}
+
+impl Findings {
+    fn add(&mut self, sig: &str, len: usize, what: impl FnOnce() -> String, case: impl FnOnce() -> Value) {
+        let e = self.by_sig.entry(sig.to_string()).or_default();
+        e.0 += 1;
+        if e.1.len() < 3 || len < e.1.last().unwrap().0 {
+            e.1.push((len, what(), case()));
+            e.1.sort_by_key(|x| x.0);
+            e.1.truncate(3);
+        }
+    }
+    fn report(self, rep: &mut Reporter) {
+        let mut minimal = serde_json_map();
+        for (sig, (count, best)) in self.by_sig {
+            minimal.insert(sig.clone(), json!({"count": count, "shortest_schedule_len": best[0].0, "shortest": best[0].2, "what": best[0].1}));
+            let n = best.len() as u64;
+            for (_, what, case) in &best {
+                rep.violation(&sig, what, case.clone());
+            }
+            for _ in n..count {
+                rep.violation(&sig, "", Value::Null); // counted, not printed (reporter prints 3 per signature)
+            }
+        }
+        if !minimal.is_empty() {
+            rep.extra("violations_minimal_schedules", Value::Object(minimal));
+        }
+    }
+}
+
+fn serde_json_map() -> vcommon::serde_json::Map<String, Value> {
+    vcommon::serde_json::Map::new()
+}
+
+fn record(rep: &mut Reporter, fnd: &mut Findings, cfg: &Cfg, sched: &[Act], o: &Outcome, fam: &str) {
+    rep.evals(o.evals.max(1));
+    let sched = &sched[..o.executed.min(sched.len())];
+    if o.nontrivial {
+        rep.nontrivial(hash_of(&(cfg, sched)));
+        rep.sample(|| json!({"case": case_json(cfg, sched, fam), "class": o.class, "trace": o.trace, "then_drained": o.drained}));
+    }
+    if o.send_pending {
+        rep.count("runs_with_parked_sender");
+    }
+    rep.count_n("try_send_full_although_room", o.full_with_room);
+    rep.count(&format!("runs|{}", o.class));
+    let mut seen = vec![];
+    for (sig, what) in &o.viol {
+        if seen.contains(&sig) {
+            continue;
+        }
+        seen.push(sig);
+        fnd.add(
+            sig,
+            sched.len(),
+            || format!("{what}; class={}; executed={:?}; then woken-only drain polled {:?}", o.class, o.trace, o.drained),
+            || case_json(cfg, sched, fam),
+        );
+    }
+}
+
+// ---------------------------------------------------------------------------------------------
+// exhaustive enumeration of schedules (tree search, every node = schedule prefix is executed)
+
+fn explore(rep: &mut Reporter, fnd: &mut Findings, cfg: &Cfg, allow_spurious: bool, allow_cancel: bool, max_len: usize, fam: &str) -> u64 {
+    let mut nodes = 0u64;
+    let mut stack: Vec<Vec<Act>> = vec![vec![]];
+    while let Some(prefix) = stack.pop() {
+        let o = execute(cfg, &prefix, allow_spurious, allow_cancel, false);
+        nodes += 1;
+        record(rep, fnd, cfg, &prefix, &o, fam);
+        if o.stop || prefix.len() >= max_len {
+            continue;
+        }
+        // symmetry: among sender tasks with identical (mode, items), first use is in index order
+        let mut touched = vec![false; cfg.senders.len()];
+        for a in &prefix {
+            if let Some(i) = a.sender() {
+                touched[i] = true;
+            }
+        }
+        for &a in o.enabled.iter().rev() {
+            if let Some(i) = a.sender() {
+                if i > 0 && !touched[i] && !touched[i - 1] && cfg.senders[i] == cfg.senders[i - 1] {
+                    continue;
+                }
+            }
+            let mut p = prefix.clone();
+            p.push(a);
+            stack.push(p);
+        }
+    }
+    nodes
+}
+
+fn cfg(cap: Option<usize>, senders: &[(Mode, usize)]) -> Cfg {
+    Cfg { cap, senders: senders.to_vec(), rx_stream: false }
+}
+
+// ---------------------------------------------------------------------------------------------
+// random long schedules
+
+fn random_run(rep: &mut Reporter, fnd: &mut Findings, rng: &mut Rng, len: usize) {
+    let k = 1 + rng.below(4);
+    let modes = [Mode::Fut, Mode::Fut, Mode::Sink, Mode::Try, Mode::Join];
+    let senders: Vec<(Mode, usize)> = (0..k).map(|_| (*rng.choose(&modes), 1 + rng.below(4))).collect();
+    let cap = match rng.below(5) {
+        0 => None,
+        1 | 2 => Some(1),
+        3 => Some(2),
+        _ => Some(3),
+    };
+    let c = Cfg { cap, senders, rx_stream: rng.chance(1, 2) };
+    let (allow_spurious, allow_cancel) = match rng.below(5) {
+        0 | 1 => (false, false),
+        2 => (false, true),
+        _ => (true, true),
+    };
+    let fam = if cap.is_none() { "random-unbounded" } else { "random-bounded" };
+    // the schedule is grown step by step against a live harness so that only enabled actions are drawn
+    let mut sched: Vec<Act> = vec![];
+    let r = catch(|| {
+        let mut h = Harness::new(&c);
+        for _ in 0..len {
+            let en = h.enabled(allow_spurious, allow_cancel);
+            if en.is_empty() {
+                break;
+            }
+            let polls: Vec<Act> = en.iter().copied().filter(|a| matches!(a, Act::PollS(_) | Act::PollR)).collect();
+            let a = if !polls.is_empty() && rng.chance(85, 100) {
+                *rng.choose(&polls)
+            } else {
+                // receiver close/drop rarely: they end most of the interesting behaviour
+                let a = *rng.choose(&en);
+                if matches!(a, Act::CloseR | Act::DropR) && rng.chance(3, 4) { *rng.choose(&en) } else { a }
+            };
+            sched.push(a);
+            h.act(a);
+            if !h.viol.is_empty() {
+                break;
+            }
+            if !h.runnable() {
+                h.judge_quiescence();
+                if !h.viol.is_empty() {
+                    break;
+                }
+            }
+        }
+    });
+    if let Err(p) = r {
+        fnd.add("C16|channel|panic", sched.len(), || format!("panic: {p}"), || case_json(&c, &sched, fam));
+        return;
+    }
+    // judge by re-executing the recorded schedule (same path as --replay)
+    let o = execute(&c, &sched, allow_spurious, allow_cancel, true);
+    rep.count(fam);
+    record(rep, fnd, &c, &sched, &o, fam);
+}
+
+// ---------------------------------------------------------------------------------------------
+
+fn replay(rep: &mut Reporter, case: &Value) {
+    let cap = case["cap"].as_u64().map(|c| c as usize);
+    let senders: Vec<(Mode, usize)> = case["senders"]
+        .as_array()
+        .expect("senders")
+        .iter()
+        .map(|s| (Mode::parse(s["mode"].as_str().unwrap()), s["items"].as_u64().unwrap() as usize))
+        .collect();
+    let c = Cfg { cap, senders, rx_stream: case["rx_stream"].as_bool().unwrap_or(false) };
+    let sched: Vec<Act> = case["schedule"].as_array().expect("schedule").iter().map(|a| Act::parse(a.as_str().unwrap())).collect();
+    let fam = case["family"].as_str().unwrap_or("replay").to_string();
+    let o = execute(&c, &sched, true, true, true);
+    let mut fnd = Findings::default();
+    record(rep, &mut fnd, &c, &sched, &o, &fam);
+    eprintln!("class={} trace={:?} drained={:?}", o.class, o.trace, o.drained);
+    fnd.report(rep);
+}
+
 fn main() {
-    let args = vcommon::Args::parse();
+    let args = Args::parse();
     if args.prop == "NONE" {
         return;
     }
-    eprintln!("not implemented yet");
-    std::process::exit(3);
+    if args.prop != "C16" {
+        eprintln!("mon_mpsc serves C16 only");
+        std::process::exit(3);
+    }
+    let mut rep = Reporter::new("C16", args.seed);
+    if let Some(case) = args.replay_case() {
+        replay(&mut rep, &case);
+        rep.finish("replay", false);
+        return;
+    }
+    let rng = args.rng();
+    let mut fnd = Findings::default();
+    use Mode::*;
+
+    // sender-task sets, grouped by number of tasks
+    let sets1: Vec<Vec<(Mode, usize)>> = vec![vec![(Fut, 2)], vec![(Sink, 2)], vec![(Try, 2)], vec![(Join, 2)], vec![(Fut, 1)], vec![(Sink, 1)]];
+    let sets2: Vec<Vec<(Mode, usize)>> = vec![
+        vec![(Fut, 2), (Fut, 2)],
+        vec![(Fut, 2), (Fut, 1)],
+        vec![(Fut, 1), (Fut, 1)],
+        vec![(Sink, 2), (Sink, 1)],
+        vec![(Fut, 2), (Sink, 2)],
+        vec![(Fut, 2), (Try, 2)],
+        vec![(Sink, 2), (Try, 1)],
+        vec![(Join, 2), (Fut, 1)],
+        vec![(Join, 2), (Fut, 2)],
+        vec![(Join, 2), (Sink, 1)],
+    ];
+    let sets3: Vec<Vec<(Mode, usize)>> = vec![
+        vec![(Fut, 1), (Fut, 1), (Fut, 1)],
+        vec![(Fut, 2), (Fut, 1), (Fut, 1)],
+        vec![(Fut, 1), (Sink, 1), (Try, 1)],
+        vec![(Sink, 1), (Sink, 1), (Sink, 1)],
+        vec![(Join, 2), (Fut, 1), (Fut, 1)],
+    ];
+    // (woken-only depth, all-actions depth) per number of sender tasks
+    let depth: [(usize, usize); 3] = match args.tier {
+        Tier::Quick => [(10, 7), (10, 6), (9, 5)],
+        Tier::Thorough => [(10, 10), (10, 8), (10, 7)],
+        Tier::Miri => [(5, 3), (4, 3), (0, 0)],
+    };
+    let mut table = serde_json_map();
+    let mut ci = 0usize;
+    for (kidx, sets) in [&sets1, &sets2, &sets3].into_iter().enumerate() {
+        let (dw, da) = depth[kidx];
+        for set in sets {
+            for capn in [1usize, 2] {
+                ci += 1;
+                if !args.in_shard(ci) || (dw == 0 && da == 0) {
+                    continue;
+                }
+                if args.tier == Tier::Miri && capn == 2 {
+                    continue;
+                }
+                let c = cfg(Some(capn), set);
+                let name: Vec<String> = set.iter().map(|(m, n)| format!("{}{n}", m.name())).collect();
+                let n1 = explore(&mut rep, &mut fnd, &c, false, false, dw, "enum-woken-only");
+                let n2 = explore(&mut rep, &mut fnd, &c, true, true, da, "enum-all-actions");
+                rep.count_n("nodes_woken_only_enumeration", n1);
+                rep.count_n("nodes_all_actions_enumeration", n2);
+                table.insert(format!("cap{capn}:{}", name.join("+")), json!({"woken_only":{"max_len":dw,"schedules":n1},"all_actions":{"max_len":da,"schedules":n2}}));
+            }
+        }
+    }
+    // unbounded channels: no sender can park; FIFO, closure and receiver wake-ups remain
+    for set in [&sets1[0], &sets1[1], &sets2[1], &sets2[4], &sets2[7], &sets3[2]] {
+        ci += 1;
+        if !args.in_shard(ci) {
+            continue;
+        }
+        let c = cfg(None, set);
+        let d = args.budget(7, 9, 3);
+        let n = explore(&mut rep, &mut fnd, &c, true, true, if set.len() == 3 { d - 2 } else { d - 1 }, "enum-unbounded");
+        rep.count_n("nodes_unbounded_enumeration", n);
+    }
+    rep.extra("enumeration", Value::Object(table));
+
+    // random long schedules
+    for i in 0..args.budget(150_000, 2_000_000, 12) {
+        ci += 1;
+        let mut r = rng.fork(i as u64);
+        if args.in_shard(ci) {
+            random_run(&mut rep, &mut fnd, &mut r, if args.tier == Tier::Miri { 25 } else { 60 });
+        }
+    }
+
+    fnd.report(&mut rep);
+    let miri = args.tier == Tier::Miri;
+    rep.require(miri || rep.counter("runs|woken-only") > 10_000, "fewer than 10000 woken-only executions");
+    rep.require(miri || rep.counter("runs|woken-only+cancelled-send") > 10_000, "fewer than 10000 executions with a cancelled send");
+    rep.require(miri || rep.counter("runs|spurious-poll") > 10_000, "fewer than 10000 executions with a spurious poll");
+    rep.require(miri || rep.counter("runs|woken-only+join-task") > 1_000, "fewer than 1000 executions with a join-style task");
+    rep.require(miri || rep.counter("runs_with_parked_sender") > 10_000, "fewer than 10000 executions in which a sender had to wait for capacity");
+    rep.require(miri || rep.counter("random-unbounded") > 100, "fewer than 100 random unbounded-channel runs");
+    rep.finish(
+        "every schedule (sequence of: poll sender task i / poll receiver / cancel a pending send / drop a sender task / close or drop the receiver) up to the tier's length (see extra.enumeration) for capacity 1..2 and the listed 1..3 sender-task sets, once restricted to what an executor produces (only woken tasks are polled, nothing cancelled) and once with every action; each schedule is followed by a woken-only drain to quiescence; plus unbounded channels and random length-60 schedules over <=4 tasks x <=4 items, capacity 1..3 or unbounded. Symmetric schedules (identical sender tasks renamed) are pruned. Every answer is judged against a FIFO queue model, every quiescent point by the lost-wake-up rule. Non-trivial = distinct (configuration, schedule) in which the channel woke a task that was parked on it",
+        true,
+    );
 }
